@@ -748,6 +748,19 @@ func genZip(s pbt.Src, thorough bool) ZipCase {
 		// rapid favours small numbers; one redraw keeps the empty call rare
 		n = s.Intn(max + 1)
 	}
+	if s.Intn(12) == 0 {
+		// a large square matrix (sides around the block sizes an implementation might tile by)
+		n = []int{15, 16, 17, 31, 32, 33, 40, 63, 64, 65, 100}[s.Intn(11)]
+		a, b := 1+s.Intn(9), s.Intn(9)
+		m := make([][]int, n)
+		for i := range m {
+			m[i] = make([]int, n)
+			for j := range m[i] {
+				m[i][j] = (a*i*n + j + b) % 1000
+			}
+		}
+		return ZipCase{M: m}
+	}
 	ragged := s.Intn(5) == 0
 	m := make([][]int, n)
 	for i := range m {
@@ -1601,6 +1614,77 @@ func propIter(c SliceCase, r *pbt.R) error {
 
 // ---------------------------------------------------------------------------
 
+// ---------------------------------------------------------------------------
+// the reshaping helpers are pure: concurrent callers, each with a slice of its own, get what they get alone
+
+type ParCase struct {
+	H    int `json:"h"`
+	Size int `json:"size"`
+	W    int `json:"workers"`
+}
+
+var parNames = []string{"ReverseStr", "Reverse(copy)", "Map", "Filter+Reject(copy)", "Partition", "Chunk", "GroupBy", "Flatten", "Zip+Unzip", "Merge", "Drop+DropWhile", "Reduce"}
+
+func parInts(w, size int) []int {
+	out := make([]int, size)
+	for i := range out {
+		out[i] = (i*i*(w+3) + 5*i + w) % 97
+	}
+	return out
+}
+
+func parProp(c ParCase, r *pbt.R) error {
+	h := mod(c.H, len(parNames))
+	size := 64 + mod(c.Size, 30000)
+	workers := 2 + mod(c.W, 7)
+	f := func(w int) string {
+		in := parInts(w, size)
+		switch h {
+		case 0:
+			rs := make([]rune, size)
+			for i, v := range in {
+				rs[i] = runeTab[(v+w)%len(runeTab)]
+			}
+			return pbt.Digest(gogu.ReverseStr(string(rs)))
+		case 1:
+			return pbt.Digest(gogu.Reverse(clone(in)))
+		case 2:
+			return pbt.Digest(gogu.Map(in, func(v int) int { return 3*v + w }))
+		case 3:
+			return pbt.Digest(gogu.Filter(in, func(v int) bool { return v%3 == w%3 })) + pbt.Digest(gogu.Reject(clone(in), func(v int) bool { return v%2 == 0 }))
+		case 4:
+			return pbt.Digest(gogu.Partition(in, func(v int) bool { return v < 40+w }))
+		case 5:
+			return pbt.Digest(gogu.Chunk(in, 7+w))
+		case 6:
+			return pbt.Digest(gogu.GroupBy(in, func(v int) int { return v % (5 + w) }))
+		case 7:
+			nest := []any{in[:size/3], []any{in[size/3 : size/2], 7, []any{in[size/2:]}}}
+			v, err := gogu.Flatten[int](nest)
+			return pbt.Digest(fmt.Sprint(v, err))
+		case 8:
+			n := 40 + w
+			m := make([][]int, n)
+			for i := range m {
+				m[i] = in[(i*n)%(size-n) : (i*n)%(size-n)+n]
+			}
+			return pbt.Digest(gogu.Unzip(gogu.Zip(m...)...))
+		case 9:
+			return pbt.Digest(gogu.Merge(in[:size/2], in[size/2:], in[:9]))
+		case 10:
+			return pbt.Digest(gogu.Drop(in, 5+w)) + pbt.Digest(gogu.DropWhile(in, func(v int) bool { return v > 30 }))
+		default:
+			return fmt.Sprint(gogu.Reduce(in, func(v, acc int) int { return (31*acc + v) % 1000003 }, w))
+		}
+	}
+	if err := pbt.Concurrently(workers, 4, f); err != nil {
+		return fmt.Errorf("%s on inputs of about %d elements: %v", parNames[h], size, err)
+	}
+	r.NonTrivial()
+	r.Label(parNames[h])
+	return nil
+}
+
 func TestProp(t *testing.T) {
 	const sl = "every slice up to length 7 over the values 0..3 (thorough: length 8 over 0..4)"
 	const rnd = "random: slices up to length 40 over up to 12 values (thorough: 120 over 24), half of them over 3 values only"
@@ -1704,6 +1788,14 @@ func TestProp(t *testing.T) {
 				"Enumerated: " + sl + "; " + rnd + ". Non-trivial = non-empty slice." + dist,
 			Enum: enumSliceCase, Gen: genSliceCase, Prop: propIter, OutOfEnum: sliceCaseOutOfEnum,
 			RapidQuick: 1200, RapidThorough: 30000,
+		},
+		&pbt.Check[ParCase]{
+			Name: "parallel",
+			Rule: "the reshaping helpers are pure functions: 2..8 goroutines call one of ReverseStr, Reverse, Map, Filter+Reject, Partition, Chunk, GroupBy, Flatten, Zip+Unzip (40..46 rows), Merge, Drop+DropWhile, Reduce at the same time (real scheduler), each on an input of its own of 64..30000 elements, four times; every answer must equal the answer of the same call running alone. Non-trivial = every case.",
+			Gen:        func(s pbt.Src, _ bool) ParCase { return ParCase{H: s.Intn(len(parNames)), Size: pbt.Pick(s, 200, 3000, 30000), W: s.Intn(7)} },
+			Prop:       parProp,
+			OutOfEnum:  func(ParCase, bool) bool { return true },
+			RapidQuick: 12, RapidThorough: 150,
 		},
 	)
 }
